@@ -709,7 +709,9 @@ def base_lookups_by_diff_key(ctx, rule):
                             for path, strats in sorted(table.items()):
                                 if strat in strats:
                                     parent, _, field = path.rpartition('/')
-                                    alts = [alt for alt in sch.at(parent or '/') if isinstance(alt, dict) and field in alt.get('properties', {})]
+                                    # required in EVERY alternative of the parent (a cell can change type: a field that only code cells
+                                    # have is absent from a base cell that both sides converted from markdown)
+                                    alts = [alt for alt in sch.at(parent or '/') if isinstance(alt, dict) and alt.get('properties')]
                                     req = bool(alts) and all(field in alt.get('required', []) for alt in alts)
                                     paths.append(path)
                                     if not req:
@@ -872,7 +874,163 @@ def boundaries_match_consumption(ctx, rule):
                  'an entry of op %s consumes base items (count_consumed_symbols) but only its start is recorded as a section boundary: the other side\'s '
                  'longer removerange is not split after it and the patch-vs-remove arm of _merge_lists aborts on its length assertion' % opv, gb)
 
+
+def similar_insert_field_lookups(ctx, rule):
+    """In the per-field dispatch that merges two similar inserted cells, `lcell[k]` / `rcell[k]` is read for a key k of the
+    local->remote diff.  k is in both cells only if the op on it is a patch/replace; an `add`/`remove` means one of the two
+    cells lacks the field.  A direct subscript is therefore safe only for fields that EVERY cell of that type has in EVERY
+    format minor (source, metadata; execution_count and outputs for code cells) -- not for `id` (absent before 4.5) or
+    `attachments` (optional): those need a guarded read."""
+    from ..schema import load_nbformat_schema
+    repo = ctx.repo
+    fn = repo.func(mf.STR + ':resolve_strategy_inline_recurse')
+    g = CFG(fn)
+    always = None
+    for minor in range(0, 6):
+        sch_ = load_nbformat_schema(minor)
+        req = {}
+        for cname in ('code_cell', 'markdown_cell', 'raw_cell'):
+            d = sch_['definitions'].get(cname, {})
+            for f in d.get('properties', {}):
+                req.setdefault(f, []).append(f in d.get('required', []))
+        here = {f for f, v in req.items() if all(v)}
+        # a field that only some cell types have but that is required where it exists (execution_count, outputs) is fine:
+        # both cells have the same cell_type (asserted before the dispatch)
+        for cname in ('code_cell',):
+            d = sch_['definitions'].get(cname, {})
+            here |= {f for f in d.get('required', [])}
+        always = here if always is None else (always & here)
+    n = 0
+    for sub in walk_no_nested(fn):
+        if isinstance(sub, ast.Subscript) and isinstance(sub.ctx, ast.Load) and isinstance(sub.value, ast.Name) and sub.value.id in ('lcell', 'rcell') and \
+                isinstance(sub.slice, ast.Name) and sub.slice.id == 'k':
+            st = repo.stmt_of(sub)
+            field = None
+            for t, pol in cond_guards(g, st):
+                ce = compare_eq_const(t)
+                if pol and ce and ce[0] == 'k' and ce[2] and len(ce[1]) == 1:
+                    field = ce[1][0]
+            if field is None:
+                continue
+            # guarded by `k in <cell>` on the same cell (if-expression or statement guard)?
+            guarded = False
+            p, child = repo.parent(sub), sub
+            while p is not None and not isinstance(p, ast.stmt):
+                if isinstance(p, ast.IfExp):
+                    pol = True if child is p.body else (False if child is p.orelse else None)
+                    t = p.test
+                    if isinstance(t, ast.Compare) and len(t.ops) == 1 and ast.unparse(t.left) == 'k':
+                        tgt = ast.unparse(t.comparators[0])
+                        if isinstance(t.ops[0], ast.In) and ((pol is True and tgt == sub.value.id) or (pol is False and tgt != sub.value.id)):
+                            guarded = True
+                        if isinstance(t.ops[0], ast.NotIn) and ((pol is False and tgt == sub.value.id) or (pol is True and tgt != sub.value.id)):
+                            guarded = True
+                child, p = p, repo.parent(p)
+            n += 1
+            ok = field in always or guarded
+            ctx.inst(rule, mf.STR + ':resolve_strategy_inline_recurse', 'field %r: %s' % (field, repo.norm(st)[:70]), ok,
+                     ('both cells have %r in every format minor' % field if field in always else 'read only from a cell that has the field') if ok else
+                     '%s[%r] is read unguarded, but a cell need not have %r in every format minor (only one of the two similar cells may carry it): KeyError aborts the merge'
+                     % (sub.value.id, field, field), sub)
+    if n < 3:
+        raise AnalysisError('resolve_strategy_inline_recurse: field lookups not found')
+
+
+def resolver_asserts_after_path_filter(ctx, rule):
+    """The cell-list resolver iterates over ALL decisions collected below /cells, including conflicts that the strategies of
+    deeper levels already turned into one-sided custom decisions (an edited output of a cell the other side deleted).  What it
+    asserts about a decision's diffs may only be asserted for decisions on the cell list itself."""
+    repo = ctx.repo
+    fn = repo.func(mf.STR + ':resolve_strategy_inline_recurse')
+    g = CFG(fn)
+    loops = [n for n in walk_no_nested(fn) if isinstance(n, ast.For)]
+    if not loops:
+        raise AnalysisError('resolve_strategy_inline_recurse: decision loop not found')
+    dvar = loops[0].target.id if isinstance(loops[0].target, ast.Name) else 'd'
+    n = 0
+    for a in ast.walk(loops[0]):
+        if isinstance(a, ast.Assert) and any(isinstance(x, ast.Attribute) and x.attr in ('local_diff', 'remote_diff') and dotted(x.value) == dvar for x in ast.walk(a.test)):
+            n += 1
+            filt = [t for t, pol in cond_guards(g, a) if any(isinstance(x, ast.Attribute) and x.attr == 'common_path' for x in ast.walk(t))]
+            ok = bool(filt)
+            ctx.inst(rule, mf.STR + ':resolve_strategy_inline_recurse', repo.norm(a)[:100], ok,
+                     'asserted only for decisions whose path is the cell list' if ok else
+                     'asserted for every conflicted decision, also those below a cell: a one-sided decision made by the output/source strategy for a cell the other side '
+                     'deleted fails it and the merge aborts (delete a cell on one side, edit its source and re-run it on the other)', a)
+    if n == 0:
+        ctx.inst(rule, mf.STR + ':resolve_strategy_inline_recurse', 'no assertion on decision diffs in the loop', True, 'nothing to violate', fn, nontrivial=False)
+
+
+def collectors_accept_none(ctx, rule):
+    """add_decision stores the diff of a side that did nothing as None or [] ("lists or None").  Functions that walk over ALL
+    decisions of a level and chain/extend their diffs must treat None as empty."""
+    repo = ctx.repo
+    n = 0
+    for fname in ('collect_diffs', 'collect_conflicting_diffs', 'bundle_decisions_by_index', 'collect_unresolved_diffs'):
+        fid = mf.STR + ':' + fname
+        if fid not in repo.functions:
+            continue
+        fn = repo.functions[fid]
+        defs = local_defs(fn)
+
+        def from_diff(e, seen=()):
+            for x in ast.walk(e):
+                if isinstance(x, ast.Attribute) and x.attr in ('local_diff', 'remote_diff'):
+                    return True
+                if isinstance(x, ast.Name) and x.id in defs and x.id not in seen:
+                    if any(from_diff(v, seen + (x.id,)) for v, k, st in defs[x.id] if k in ('assign', 'unpack') and isinstance(v, (ast.Call, ast.Attribute))):
+                        return True
+            return False
+        for c in calls_in(fn):
+            iters = []
+            if isinstance(c.func, ast.Attribute) and c.func.attr == 'extend' and c.args:
+                iters = [c.args[0]]
+            elif isinstance(c.func, ast.Name) and c.func.id in ('chain', 'list', 'sorted', 'set', 'tuple'):
+                iters = list(c.args)
+            for it in iters:
+                if isinstance(it, ast.GeneratorExp):
+                    continue
+                core = it
+                guarded = isinstance(it, ast.BoolOp) and isinstance(it.op, ast.Or)
+                if guarded:
+                    core = it.values[0]
+                if not from_diff(core):
+                    continue
+                n += 1
+                ctx.inst(rule, fid, repo.norm(c)[:100], guarded,
+                         'a None diff is treated as empty' if guarded else
+                         '%s can be None (the side did nothing): iterating it raises TypeError and the merge aborts' % ast.unparse(it)[:40], c)
+    if n < 4:
+        raise AnalysisError('diff collectors not found (%d sites)' % n)
+
+
+def no_tautological_guards(ctx, rule, module_prefixes):
+    """A guard that compares a variable with the very expression it was assigned from is always true (or always false): the code
+    behind it is dead, which in adjust_patch_level meant diffs of deeper decisions were never lifted to the level they are
+    resolved at."""
+    repo = ctx.repo
+    n = 0
+    for fid, fn in sorted(repo.functions.items()):
+        mod = fid.split(':')[0]
+        if not any(mod == p or mod.startswith(p) for p in module_prefixes) or isinstance(fn, ast.Lambda):
+            continue
+        defs = local_defs(fn)
+        for c in walk_no_nested(fn):
+            if isinstance(c, ast.Compare) and len(c.ops) == 1:
+                n += 1
+                for a, b in ((c.left, c.comparators[0]), (c.comparators[0], c.left)):
+                    if isinstance(a, ast.Name) and not isinstance(b, (ast.Constant, ast.Name)):
+                        ds = defs.get(a.id, [])
+                        if len(ds) == 1 and ds[0][1] == 'assign' and ast.dump(ds[0][0]) == ast.dump(b):
+                            ctx.inst(rule, fid, repo.norm(c), False,
+                                     '%s was assigned from exactly this expression: the comparison has one outcome only and the other branch is dead code' % a.id, c)
+    ctx.inst(rule, ','.join(module_prefixes), '%d comparison(s) examined' % n, True, 'none compares a variable with its own defining expression', None, nontrivial=False)
+
 def run(ctx):
+    ctx.rule('R03.17', 'field lookups in the similar-insert dispatch are unguarded only for fields every cell has in every format minor', floor=3)
+    ctx.rule('R03.18', 'the cell-list resolver asserts the shape of a decision only after filtering for decisions on the cell list itself', floor=1)
+    ctx.rule('R03.19', 'functions that collect the diffs of all decisions of a level treat a None diff as empty', floor=4)
+    ctx.rule('R03.20', 'no guard in the merge package compares a variable with the expression it was assigned from (dead adjustment code)', floor=1)
     ctx.rule('R03.15', 'decision sort keys are comparable for every mix of path elements: each key tuple starts with a string', floor=1)
     ctx.rule('R03.16', 'section boundaries agree with the consumed-symbol table: every op that consumes base items closes a boundary after them', floor=3)
     ctx.rule('R03.14', 'fields read from a diff entry exist for every op that the surrounding op tests still allow (field table from the op_* constructors)', floor=10)
@@ -892,3 +1050,7 @@ def run(ctx):
     check_op_fields(ctx, 'R03.14', ['nbdime.merging.'])
     sort_key_homogeneous(ctx, 'R03.15')
     boundaries_match_consumption(ctx, 'R03.16')
+    similar_insert_field_lookups(ctx, 'R03.17')
+    resolver_asserts_after_path_filter(ctx, 'R03.18')
+    collectors_accept_none(ctx, 'R03.19')
+    no_tautological_guards(ctx, 'R03.20', ['nbdime.merging.'])
